@@ -155,6 +155,7 @@ Qed.
 Lemma safe_start_stage s id i k : safe_commits (h_commits (handle_start_stage s id i k)).
 Proof.
   unfold safe_commits, handle_start_stage. destruct (get_stage s i) as [st|]; [|safe].
+  destruct (parent_not_started s st); [unfold ok; cbn [h_commits]; safe|].
   match goal with |- context [match rr_phase ?r with _ => _ end] => destruct (rr_phase r) end.
   - unfold start_if_ready.
     match goal with |- context [if ?c then ok [] else _] => destruct c end; [safe|].
